@@ -82,7 +82,13 @@ class SRows(Model):
         if kw or drop is not True or inplace is not False:
             raise Unsupported('reset_index shape')
         if self.keep is not None:
-            raise Unsupported('reset_index after rows were dropped')
+            # rows were dropped: the remaining rows are relabelled 0..k-1 in row order -- label of a present row = number of
+            # present rows before it (base rows and presence flags are kept, so row-wise statements stay meaningful)
+            Kp = fresh('kept', BoolArr)
+            keep = self.keep
+            ctx.assume(smt.Forall(0, self.n, lambda i: Kp[i] == keep(i), name='kp'))
+            ctx.note_cnt(Kp)
+            return SRows(self.n, self.cols, (lambda i: cnt(Kp, i)), keep, positional=False)._with_kinds(self.kinds)
         return SRows(self.n, self.cols, (lambda i: i), None, positional=True)._with_kinds(self.kinds)
 
     def _with_kinds(self, kinds):
